@@ -58,13 +58,20 @@ def run(ctx: Ctx):
     from sa import av as _av11
 
     from . import util as _u11
+    from .c03 import _branches as _br11
+
     for cname in ("And", "Or"):
         f = M.method("ode", f"_print_{cname}")
         ctx.require(f, f"writer _print_{cname} not found")
         all_args_joined(f, None, ctx, "R11.a", cname)
     for cname, lit in (("BooleanTrue", "1"), ("BooleanFalse", "0")):
         f = M.method("ode", f"_print_{cname}")
-        rets = [const_str(n.value) for n in ast.walk(f.node) if isinstance(n, ast.Return)] if f else []
+        # read from what the method returns (a constant text on every path)
+        tv_ = _u11.value_of(ctx, f) if f else None
+        if tv_ is not None and _av11.has_unk(tv_):
+            ctx.undecided("R11.a", f"writer::{cname}::literal", f"what the writer's _print_{cname} returns is not understood", f.where())
+            continue
+        rets = sorted({_av11.flatten(leaf) if _av11._is_str(leaf) else _av11.show(leaf) for _c, leaf in _br11(tv_)}) if tv_ is not None else []
         ctx.check(rets == [lit], "R11.a", f"writer::{cname}::literal", f"{cname} -> {lit}", f".ode writer prints {cname} as {rets}", f.where() if f else "")
     pw = M.method("ode", "_print_Piecewise")
     frs = pm.fragments(pw)
